@@ -109,7 +109,7 @@ def concretise(hist, unit=1, maxwin_m=8, cfg=None, rng=None, variety=True):
     return steps
 
 
-def run_harness(ctx, scenarios, label, shards=None, race=False, timeout=3000):
+def run_harness(ctx, scenarios, label, shards=None, race=False, timeout=900):
     """Replay scenarios (list of dicts with id/cfg/steps/tag) in parallel processes; return merged trace path."""
     shards = shards or min(vlib.NCPU, max(1, len(scenarios) // 20))
     files = []
@@ -179,7 +179,7 @@ def judge(ctx, scenarios, tracefile, props=None, label='srv'):
             if p == 'X':
                 ctx.inconclusive.append('trace %d: %s' % (t, c))
                 continue
-            if p in props:
+            if p in props or any(c.startswith(x) for x in props if ':' in x):
                 cls = classify(c)
                 percls[c] = percls.get(c, 0) + 1
                 ctx.extra['rejected_by_clause'][c] = percls[c]
